@@ -2,7 +2,9 @@
 
 Real App.Close over generated closer sets (0-50 closers, failing subsets, blocking closers; closers of distinct
 ZERO-SIZE types, which all share one address, and struct-plus-its-first-field pairs, which share one too, mixed with
-ordinary ones); every run yields a sequenced event history that must be accepted by the model's trace acceptor (Conc.close_accepts, which replays it
+ordinary ones); Close is invoked after Run returned, or WHILE Run is still inside callRunners (an ApplicationRunner that
+serves until a closer's Close / the driver releases it; a server component that is runner and closer at once), or BY an
+ApplicationRunner from inside its Run(); every run yields a sequenced event history that must be accepted by the model's trace acceptor (Conc.close_accepts, which replays it
 with the model's own `step`) and must satisfy the property oracle.  Nothing depends on wall-clock ordering."""
 import json
 
@@ -15,7 +17,8 @@ MANIFEST = {
             "c14_at_most_once, c14_isolation (main and thread i alone can always reach call_i), c14_no_deadlock, c14_zero; "
             "tied to app.go on every run by replaying sequenced event histories of the real App.Close (blocking and "
             "failing closers, closers of distinct zero-size types and struct-plus-first-field closers that share one address, "
-            "GOMAXPROCS 1/2/default) through the model's executable trace acceptor (vm_compute)",
+            "GOMAXPROCS 1/2/default; Close invoked after Run returned, while Run is still inside callRunners with a blocking "
+            "runner, and by a runner itself) through the model's executable trace acceptor (vm_compute)",
     "design_ref": "DESIGN.md 5 C14",
     "note": "modelled, not verified: Go scheduler, sync.WaitGroup, go statement; the theorems cover all interleavings of the "
             "modelled atomic steps; a panicking closer is outside the property (it kills the process)",
@@ -90,8 +93,13 @@ def drop_slot(c, r):
             j = int(s[2:])
             s = "P" if j == r else "O:%d" % (j - 1 if j > r else j)
         out.append(s)
-    return dict(c, n=c["n"] - 1, kinds=c["kinds"][:r] + c["kinds"][r + 1:], fails=c["fails"][:r] + c["fails"][r + 1:],
-                shapes=out)
+    c = dict(c, n=c["n"] - 1, kinds=c["kinds"][:r] + c["kinds"][r + 1:], fails=c["fails"][:r] + c["fails"][r + 1:],
+             shapes=out)
+    if c.get("mode"):   # the runner / the releasing closer that went away: the runner becomes a component of its own,
+        slot, rel = c["runner_slot"], c["rel_by"]   # released by the driver
+        c["runner_slot"] = -1 if slot == r else (slot - 1 if slot > r else slot)
+        c["rel_by"] = 0 if rel == r + 1 else (rel - 1 if rel > r + 1 else rel)
+    return c
 
 
 def gen_case(rng, cid, maxn):
@@ -132,8 +140,28 @@ def gen_case(rng, cid, maxn):
         fails = [rng.random() < 0.5 for _ in range(n)]
     elif fprof == "one" and n:
         fails[rng.randrange(n)] = True
-    return {"id": cid, "n": n, "kinds": kinds, "fails": fails, "shapes": gen_shapes(rng, n),
-            "procs": rng.choice([0, 0, 1, 2, 4]), "wdl_ms": rng.choice([3, 8, 15])}
+    c = {"id": cid, "n": n, "kinds": kinds, "fails": fails, "shapes": gen_shapes(rng, n),
+         "procs": rng.choice([0, 0, 1, 2, 4]), "wdl_ms": rng.choice([3, 8, 15])}
+    return with_mode(rng, c, rng.choice(["", "", "", "", "during", "during", "self"]))
+
+
+def with_mode(rng, c, mode):
+    """when Close is invoked: "" after Run returned; "during" while Run is still inside callRunners (a runner of the case has
+    started and blocks until the Close of closer rel_by is CALLED, or - rel_by 0 - until the driver releases it after
+    App.Close returned); "self" by a runner from inside its Run().  runner_slot: the ordinary closer that is also the runner
+    (a server that serves until it is closed: rel_by = runner_slot + 1), -1 = the runner is a component of its own."""
+    if not mode:
+        return c
+    n = c["n"]
+    plain = [i for i, s in enumerate(c["shapes"]) if s == "P"]
+    slot = rng.choice(plain) if plain and rng.random() < 0.5 else -1
+    rel = 0
+    if mode == "during":
+        if slot >= 0 and rng.random() < 0.7:
+            rel = slot + 1
+        elif n and rng.random() < 0.6:
+            rel = rng.randint(1, n)
+    return dict(c, mode=mode, runner_slot=slot, rel_by=rel)
 
 
 CORPUS = [
@@ -147,6 +175,22 @@ CORPUS = [
     {"n": 3, "kinds": ["F", "F", "F"], "fails": [False, False, False], "shapes": ["O:1", "I", "P"], "procs": 0, "wdl_ms": 10},
 ]
 
+# Close while Run has not returned: a server (runner + closer in one component) that serves until it is closed; a runner
+# of its own released by another closer's Close / by the driver after Close returned; a runner that calls Close itself
+MODE_CORPUS = [
+    {"n": 3, "kinds": ["F", "F", "W"], "fails": [False, True, False], "shapes": ["P", "P", "P"], "procs": 0, "wdl_ms": 10,
+     "mode": "during", "runner_slot": 0, "rel_by": 1},
+    {"n": 2, "kinds": ["A", "A"], "fails": [False, False], "shapes": ["P", "Z3"], "procs": 0, "wdl_ms": 10,
+     "mode": "during", "runner_slot": -1, "rel_by": 2},
+    {"n": 2, "kinds": ["W", "F"], "fails": [True, False], "shapes": ["P", "P"], "procs": 1, "wdl_ms": 10,
+     "mode": "during", "runner_slot": -1, "rel_by": 0},
+    {"n": 0, "kinds": [], "fails": [], "shapes": [], "procs": 0, "wdl_ms": 5, "mode": "during", "runner_slot": -1, "rel_by": 0},
+    {"n": 3, "kinds": ["A", "F", "W"], "fails": [True, False, False], "shapes": ["P", "P", "P"], "procs": 0, "wdl_ms": 10,
+     "mode": "self", "runner_slot": -1, "rel_by": 0},
+    {"n": 2, "kinds": ["F", "A"], "fails": [False, True], "shapes": ["P", "P"], "procs": 2, "wdl_ms": 10,
+     "mode": "self", "runner_slot": 1, "rel_by": 0},
+]
+
 
 def load_corpus():
     """corpus/C14/*.json (minimised past disagreements / canonical cases) run first; falls back to the built-in list"""
@@ -154,7 +198,7 @@ def load_corpus():
     import os
     files = sorted(glob.glob(os.path.join(vlib.VERIF, "corpus", "C14", "*.json")))
     cs = [json.load(open(f)) for f in files]
-    return cs or CORPUS
+    return (cs or CORPUS) + MODE_CORPUS
 
 
 def obs_term(e):
@@ -221,7 +265,8 @@ def run(ctx):
     M.sort(key=lambda i: (by_id[i]["case"]["n"], i))
 
     def key(c):
-        return vlib.stable_hash([c["n"], c["kinds"], c["fails"], c.get("shapes"), c["procs"]])
+        return vlib.stable_hash([c["n"], c["kinds"], c["fails"], c.get("shapes"), c["procs"], c.get("mode", ""),
+                                 c.get("runner_slot"), c.get("rel_by")])
 
     distinct_nt = len({key(by_id[i]["case"]) for i in NTI})
 
@@ -249,16 +294,33 @@ def run(ctx):
         more = [gen_case(ctx.rng, i, 12) for i in range(400)]
         for m in more:
             m["procs"] = ctx.rng.choice([1, 1, 2])
+            if m.get("mode"):   # a hang costs seconds: the widening run keeps to the ordinary sequence
+                m.pop("mode"), m.pop("runner_slot"), m.pop("rel_by")
         b2, _, V2, _, _ = evaluate(ctx, binp, more, "widen")
         return [b2[i] for i in sorted(V2, key=lambda i: b2[i]["case"]["n"])[:3]]
 
     sizes, kinds, procs, shp = {}, {}, {}, {"P": 0, "Z": 0, "O": 0, "I": 0}
+    modes = {"after_run_returned": 0, "during_run_server_closed_by_its_own_close": 0, "during_run_released_by_another_closer": 0,
+             "during_run_released_by_driver_after_close": 0, "by_a_runner_itself": 0, "runner_is_also_a_closer": 0}
     shared = {"cases_with_closers_sharing_an_address": 0, "cases_with_two_or_more_zero_size_closers": 0,
               "cases_with_struct_and_first_field": 0, "cases_with_both": 0, "largest_group_at_one_address": 0,
               "failing_closers_sharing_an_address": 0, "blocking_closers_sharing_an_address": 0}
     for i in by_id:
         c = by_id[i]["case"]
         shapes = c.get("shapes") or ["P"] * c["n"]
+        md = c.get("mode", "")
+        if not md:
+            modes["after_run_returned"] += 1
+        elif md == "self":
+            modes["by_a_runner_itself"] += 1
+        elif c["rel_by"] == 0:
+            modes["during_run_released_by_driver_after_close"] += 1
+        elif c["rel_by"] == c["runner_slot"] + 1:
+            modes["during_run_server_closed_by_its_own_close"] += 1
+        else:
+            modes["during_run_released_by_another_closer"] += 1
+        if md and c["runner_slot"] >= 0:
+            modes["runner_is_also_a_closer"] += 1
         for sh in shapes:
             shp[sh[0]] = shp.get(sh[0], 0) + 1
         groups = shared_address_groups(shapes)
@@ -287,12 +349,14 @@ def run(ctx):
                 "closer has been called, W=blocks until it sees that App.Close already returned or a short deadline; failing "
                 "subsets; shapes P=ordinary pointer, Z=pointer to one of 16 distinct zero-size types (one shared address, state "
                 "kept per type name), O/I=a struct and its first field both registered (one shared address); GOMAXPROCS "
-                "1/2/4/default); non-trivial = at least two closers, at least one failing, and the calls "
+                "1/2/4/default); Close invoked after Run returned / while Run is still inside callRunners (a runner that has "
+                "started and blocks until a closer's Close is called or the driver releases it after Close returned; the runner "
+                "a component of its own or one of the closers) / by a runner from inside its Run(); non-trivial = at least two closers, at least one failing, and the calls "
                 "overlapped in the recorded history; distinct = distinct (n, kinds, fails, shapes, procs)",
         "samples": [by_id[i] for i in ids[:2] + ids[-1:]],
         "traces_validated_against_impl": nev,
         "input_distribution": {"size_buckets": sizes, "closer_kinds": kinds, "closer_shapes": shp,
-                               "shared_address": shared, "gomaxprocs": procs,
+                               "shared_address": shared, "gomaxprocs": procs, "close_invoked": modes,
                                "failing_closers": sum(sum(by_id[i]["case"]["fails"]) for i in by_id)},
     }
     return vlib.decide(ctx, static_ok and struct_ok, by_id, M, V, cov, widen=widen, shrink=shrink,
